@@ -50,7 +50,7 @@ def turn (cap : Option Nat) (sz : Item → Nat) : Nat → Nat → List Step → 
                     then [.token (pos + 1)]            -- mint (state index = pos + 1), write the sentinel, break
                     else turn cap sz (told + bytes sz items) (pos + 1) r)
       | .done items => items                          -- flush, `if out.finished: break` — no token
-      | .fail items => items                          -- exception → error batch, no token
+      | .fail items => items                          -- exception → the call's log batches, then the error batch; no token
 
 /-- the break oracle the real decision amounts to for ONE turn that starts at step `pos` with `told` bytes written:
 position `p` breaks iff the decision says so on the bytes written up to and including step `p` -/
